@@ -126,9 +126,59 @@ Proof.
   cbn [app]. list_eq.
 Qed.
 
+(* pack()'s own range checks: passed exactly when APID, count and data length are in range *)
+Lemma sph_valid_split h : sph_valid h <-> sph_rest_valid h /\ sph_in_range h.
+Proof. unfold sph_valid, sph_rest_valid, sph_in_range. tauto. Qed.
+
+Lemma sph_pack_in_range h : sph_in_range h ->
+  sph_pack h =
+  (do w0 <- struct_pack 2 (Z.lor (Z.shiftl (ver h) 13) (pid_raw (sph_pid h)));
+   do w1 <- struct_pack 2 (psc_raw (sph_psc h));
+   do w2 <- struct_pack 2 (dlen h);
+   Ok (w0 ++ w1 ++ w2)).
+Proof.
+  intros (Ha & Hc & Hd). unfold sph_pack, MAX_APID, MAX_SEQ_COUNT.
+  destruct ((apid h >? 2047) || (apid h <? 0)) eqn:E1; [lia|].
+  destruct ((scount h >? 16383) || (scount h <? 0)) eqn:E2; [lia|].
+  destruct ((dlen h >? 65535) || (dlen h <? 0)) eqn:E3; [lia|]. reflexivity.
+Qed.
+
+(* ... and an APID, sequence count or data length outside its range is refused with ValueError
+   before anything is encoded -- for EVERY header state (also undefined version / flags) *)
+Theorem sph_pack_out_of_range h : ~ sph_in_range h -> sph_pack h = Err EValue.
+Proof.
+  intros N. unfold sph_in_range in N. unfold sph_pack, MAX_APID, MAX_SEQ_COUNT.
+  destruct ((apid h >? 2047) || (apid h <? 0)) eqn:E1; [reflexivity|].
+  destruct ((scount h >? 16383) || (scount h <? 0)) eqn:E2; [reflexivity|].
+  destruct ((dlen h >? 65535) || (dlen h <? 0)) eqn:E3; [reflexivity|]. lia.
+Qed.
+
+(* whatever pack() returns, it returns it for in-range values only: nothing out of range is encoded *)
+Theorem sph_pack_ok_in_range h b : sph_pack h = Ok b -> sph_in_range h.
+Proof.
+  intros E.
+  destruct (Z_le_dec 0 (apid h)), (Z_le_dec (apid h) 2047), (Z_le_dec 0 (scount h)),
+    (Z_le_dec (scount h) 16383), (Z_le_dec 0 (dlen h)), (Z_le_dec (dlen h) 65535);
+    try (unfold sph_in_range; lia);
+    rewrite sph_pack_out_of_range in E by (unfold sph_in_range; lia); discriminate.
+Qed.
+
+(* whatever pack() returns (also for undefined version / flags) is six well-formed octets *)
+Lemma sph_pack_ok_shape h b : sph_pack h = Ok b -> wf_bytes b /\ length b = 6%nat.
+Proof.
+  intros E. pose proof (sph_pack_ok_in_range _ _ E) as R. rewrite sph_pack_in_range in E by assumption.
+  unfold struct_pack in E.
+  repeat match type of E with context [if ?c then _ else _] => destruct c; [|discriminate] end.
+  cbn [bind] in E. assert (B : b = be_encode 2 (Z.lor (Z.shiftl (ver h) 13) (pid_raw (sph_pid h))) ++
+    be_encode 2 (psc_raw (sph_psc h)) ++ be_encode 2 (dlen h)) by congruence.
+  subst b. split.
+  - rewrite !wf_bytes_app. repeat split; apply be_encode_wf.
+  - rewrite !app_length, !be_encode_length. reflexivity.
+Qed.
+
 Theorem sph_pack_layout h : sph_valid h -> sph_pack h = Ok (sph_layout h).
 Proof.
-  intros H. unfold sph_pack.
+  intros H. rewrite sph_pack_in_range by (apply sph_valid_split in H; apply H).
   rewrite pid_raw_word0, psc_raw_word1 by assumption.
   destruct (word0_fields h H) as (R0 & _). destruct (word1_fields h H) as (R1 & _).
   rewrite !struct_pack_ok by (cbn; unfold sph_valid in H; lia).
